@@ -11,7 +11,7 @@ ASSUMPTIONS = base.ASSUMPTIONS + ['identity of the returned object with `out`, a
 RULE = ('AR (policies same/largest/smallest/optimal), AO (explicit out / out_like targets, function and config routes), AC (constant operand on either side, const_op_sizing in 4 policies), UN (neg/pos/abs): '
         'operand formats n_word 2..12, 0<=n_frac<=n_word-sign, all 10 modes on the governing config and a different config on the other operand, raw and repr methods; exhaustive codes for formats <=3 (quick) / <=5 (thorough) bits; '
         'non-trivial = the exact result is not representable in the target (rounding or overflow acted) or the target differs from both operand formats')
-TECHNIQUE = 'Lean 4 theorems (raw kernel = exact rational result for any alignment shift, hence result = quantize(target, cfg, exact); raw = repr; neg/abs/pos exact when representable) + differential correspondence'
+TECHNIQUE = 'Lean 4 theorems (raw kernel = exact rational result for any alignment shift, hence result = quantize(target, cfg, exact); raw = repr; neg/abs/pos exact when representable) + differential correspondence + source tie: the growth/sizing/carrier rules of fxpmath/functions.py are translated to Lean on every run (harness/srcgen.py) and the tie theorems of lean/FxpVerif/Gen/Tie.lean re-checked against the translation'
 LEVEL_TEXT = ('Machine-checked for all formats/targets/modes: the integer-code kernel of +,-,* (with possibly negative alignment shifts) delivers the exact rational result, so the stored result is the single C01 quantization of the exact '
               'mathematical result into the imposed format under the governing configuration, raw and repr methods coincide, flags are those of that one store; unary minus/plus/abs are exact whenever representable. '
               'Correspondence covers the four policies, out/out_like, constants on both sides and deliberately different configs on the non-governing operand.')
